@@ -11,6 +11,7 @@ ID = "C08"
 LEVEL = "exploration"
 ENV = {"x64": True, "devices": 1}
 BUDGET = {"quick": 120, "thorough": 2400}
+TRACE_CASES = True      # expensive cases: record the case in flight so a hang can be named
 RULE = (
     "Hypothesis-built block layouts (1 or 2 blocked axes, 2..4 blocks per axis, "
     "block size 2..4, Distributed Shampoo also with a ragged last block, Tearfree "
